@@ -372,7 +372,7 @@ def run(c, facts, tier):
         c.ob("C05.shape", key, "body is a composition of modelled parsers", ok if ok else None, "unrecognised statements %s; unmodelled parser expressions %s; value-level lets %s" % (extra, opq, lets), nontrivial=False)
     reach_opq = [o.get("src", "")[:50] for o in g.opaque_nodes(b.fn_ir(tokfn), follow=True)]
     c.ob("C05.shape", tokfn, "every parser reachable from token() is modelled (generic instantiations included)", not reach_opq, "unmodelled: %s" % reach_opq if reach_opq else "no opaque node in the grammar reachable from token()", nontrivial=False)
-    c.floor("parser functions", nshape, 25)
+    c.floor("parser functions", nshape, 15)
     # ------------------------------------------------------------ C05.arg-lang
     arg_lang(c, facts, b, g, spec, scope, prim)
     c.floor("keyword alternatives", len(prim), 56)
